@@ -122,6 +122,12 @@ def gen_test(rng, tid, tok, kind=None, p_write=0.3):
         t["count"] = 3
     if rng.random() < 0.15:
         t["rebind"] = True
+    elif rng.random() < 0.1:
+        # replaces sys.stdout by a stream of its own; what it writes for the runner to see goes to sys.stderr
+        t["ownstream"] = True
+        for p_ in [t["setUp"], t["body"], t["tearDown"]] + t["subs"] + t["cleanups"]:
+            for w_ in p_["writes"]:
+                w_[0] = True
     if rng.random() < 0.12:
         # test names need not be plain ASCII: accents, a lone surrogate (only backslashreplace can write it), tabs
         t["label"] = rng.choice(["caf\u00e9", "\udc80sur", "snow\u2603man", "tab\there", "q\"uote", "\U0001f600"])
